@@ -792,6 +792,13 @@ def run_op_case(pl):
         rec['problems'].append('adjoint raised {!r}'.format(e))
     rec['checks'].append(('cfg act=adjoint kind={} method={} pad={} c={}'.format(
         kind, m, p, cs(cc)), ainst, lin_flag))
+    if aop is not None:
+        try:
+            if aop.domain != op.range or aop.range != op.domain:
+                rec['problems'].append('op.adjoint maps {!r} -> {!r} instead of op.range -> '
+                                       'op.domain'.format(aop.domain, aop.range)[:400])
+        except Exception as e:  # noqa
+            rec['problems'].append('adjoint domain/range unreadable: {!r}'.format(e))
     if lin_flag != int(linear):
         rec['problems'].append('is_linear = {} but the operator is {}'.format(
             lin_flag, 'linear' if linear else 'affine (constant padding with pad_const != 0)'))
@@ -931,6 +938,217 @@ def ops_matrix_stream(ctx, shapes, dtypes=(float, complex)):
                         ctx.violation(key, 'matrix(op)[{i}][{j}] = {} but matrix(op.adjoint)[{j}][{i}]'
                                       ' = {} (flat C-order indices; adjoint is not the transpose)'
                                       .format(cs(A[j][i]), cs(B[i][j]), i=i, j=j), desc)
+
+
+# ---------------------------------------------------------------------------
+# explicit range= / domain= options: structure of adjoint / derivative, full-basis matrices
+
+CLASSNAME = {'pd': 'PartialDerivative', 'grad': 'Gradient', 'div': 'Divergence',
+             'lap': 'Laplacian'}
+X_OPTIONS = {'pd': ['dtype', 'distinct'], 'lap': ['dtype', 'distinct'],
+             'grad': ['dtype', 'distinct', 'pw-array', 'pw-const'],
+             'div': ['dtype', 'distinct', 'pw-array', 'pw-const']}
+
+
+def stratum_of(kind):
+    return ('opt/domain-explicit/Divergence' if kind == 'div'
+            else 'opt/range-explicit/' + CLASSNAME[kind])
+
+
+def build_explicit(pl):
+    """operator with an explicitly given range (domain for Divergence):
+    dtype: same partition, other dtype; distinct: an equal but separately built space;
+    pw-array / pw-const: power space with weighting [1, 2, 4] / 2.0 (Gradient, Divergence)."""
+    import odl
+    shape, nd, kind, opt = pl['shape'], len(pl['shape']), pl['kind'], pl['opt']
+    sides = (1.0, 0.5, 2.0)[:nd]
+    dtype = complex if pl['cplx'] else float
+
+    def mk(dt):
+        return odl.uniform_discr([0.0] * nd, [s * n for s, n in zip(sides, shape)], shape,
+                                 dtype=dt)
+    space = mk(dtype)
+    if opt == 'dtype':
+        base, kw = mk('complex64' if pl['cplx'] else 'float32'), {}
+    elif opt == 'distinct':
+        base, kw = mk(dtype), {}
+    elif opt == 'pw-array':
+        base, kw = space, {'weighting': [1.0, 2.0, 4.0][:nd]}
+    else:
+        base, kw = space, {'weighting': 2.0}
+    m, p, c = pl['method'], pl['pad'], pl['c']
+    if kind == 'pd':
+        return odl.PartialDerivative(space, pl['axis'], range=base, method=m, pad_mode=p,
+                                     pad_const=c), sides
+    if kind == 'lap':
+        return odl.Laplacian(space, range=base, pad_mode=p, pad_const=c), sides
+    V = odl.ProductSpace(base, nd, **kw)
+    if kind == 'grad':
+        return odl.Gradient(space, range=V, method=m, pad_mode=p, pad_const=c), sides
+    return odl.Divergence(domain=V, range=space, method=m, pad_mode=p, pad_const=c), sides
+
+
+def basis(space, unit):
+    """all unit elements unit*e_k of a (power) space, C order, components concatenated"""
+    import odl
+    out = []
+    if isinstance(space, odl.ProductSpace):
+        for comp in range(len(space)):
+            for idx in np.ndindex(*space[comp].shape):
+                e = space.zero()
+                e[comp][idx] = unit
+                out.append(e)
+    else:
+        for idx in np.ndindex(*space.shape):
+            e = space.zero()
+            e[idx] = unit
+            out.append(e)
+    return out
+
+
+def flat_exact(x):
+    return [v for a in from_elem(x) for v in a.flat()]
+
+
+def inner_exact(x, y):
+    return cval(complex(x.inner(y)))
+
+
+def run_explicit_case(pl):
+    """-> list of (fail label, text).  All on the real code; the oracle is independent of the
+    model: domain/range of adjoint and derivative, adjoint.adjoint, full-basis matrices."""
+    import random
+    r = random.Random(pl['vseed'])
+    fails = []
+    kind, shape, nd = pl['kind'], pl['shape'], len(pl['shape'])
+    try:
+        op, sides = build_explicit(pl)
+    except Exception as e:  # noqa
+        return [('constructor', 'constructor raised {!r}'.format(e)[:300])]
+    affine = pl['pad'] == 'constant' and pl['c'] != 0
+    n_in = nd if kind == 'div' else 1
+    xs = [rand_int_array(r, shape, pl['cplx']) for _ in range(n_in)]
+    try:
+        x = to_elem(op.domain, xs)
+        # --- derivative keeps domain / range (affine variants return a new instance)
+        dop = op.derivative(x)
+        if dop.domain != op.domain or dop.range != op.range:
+            fails.append(('derivative-spaces', 'op.derivative(x) maps {!r} -> {!r}, op maps {!r} '
+                          '-> {!r}'.format(dop.domain, dop.range, op.domain, op.range)[:500]))
+        if affine:
+            hs = [rand_int_array(r, shape, pl['cplx']) for _ in range(n_in)]
+            h = to_elem(op.domain, hs)
+            lhs = [sub(u, v) for u, v in zip(flat_exact(op(x + h)), flat_exact(op(x)))]
+            if lhs != flat_exact(dop(h)):
+                fails.append(('derivative-values', 'op(x+h) - op(x) != op.derivative(x)(h)'))
+            try:
+                op.adjoint
+                fails.append(('affine-adjoint', 'affine operator returned an adjoint'))
+            except ValueError:
+                pass
+            return fails
+        adj = op.adjoint
+    except Exception as e:  # noqa
+        return fails + [('raised', 'raised {!r}'.format(e)[:300])]
+    # --- adjoint maps range -> domain
+    swap_ok = True
+    if adj.domain != op.range or adj.range != op.domain:
+        swap_ok = False
+        fails.append(('adjoint-spaces', 'op maps {!r} -> {!r} but op.adjoint maps {!r} -> {!r} '
+                      '(must be op.range -> op.domain)'.format(
+                          op.domain, op.range, adj.domain, adj.range)[:700]))
+    try:
+        aa = adj.adjoint
+        if aa.domain != op.domain or aa.range != op.range:
+            fails.append(('adjoint-adjoint-spaces', 'op.adjoint.adjoint maps {!r} -> {!r}'.format(
+                aa.domain, aa.range)[:400]))
+        elif flat_exact(aa(x)) != flat_exact(op(x)):
+            fails.append(('adjoint-adjoint-values', 'op.adjoint.adjoint(x) != op(x) for x={}'
+                          .format([cl(exact(a)) for a in xs])[:400]))
+    except Exception as e:  # noqa
+        fails.append(('adjoint-adjoint-raised', 'op.adjoint.adjoint raised {!r}'.format(e)[:300]))
+    if not swap_ok:
+        return fails
+    # --- full basis: plain (conjugate) transpose, and adjointness for the two inner products
+    unit = 1.0 if not pl['cplx'] else 1.0 + 2.0j
+    u = cval(unit)
+    try:
+        E, F = basis(op.domain, unit), basis(op.range, unit)
+        AE = [op(e) for e in E]
+        BF = [adj(f) for f in F]
+        A = [flat_exact(v) for v in AE]          # A[j][i] = (A u e_j)_i
+        B = [flat_exact(v) for v in BF]          # B[i][j] = (A* u f_i)_j
+        bad = [(i, j) for j in range(len(E)) for i in range(len(F))
+               if cmul(A[j][i], conj(u)) != cmul(u, conj(B[i][j]))]
+        if bad:
+            i, j = bad[0]
+            fails.append(('plain-transpose', 'matrix(op)[{i}][{j}] = {} but matrix(op.adjoint)'
+                          '[{j}][{i}] = {} (flat C-order indices, unit {})'.format(
+                              cs(A[j][i]), cs(B[i][j]), cs(u), i=i, j=j)))
+        else:
+            pairs = [(i, j) for j in range(len(E)) for i in range(len(F))]
+            if pl.get('sample_inner'):
+                pairs = [pq for pq in pairs if A[pq[1]][pq[0]] != Z] + r.sample(
+                    pairs, min(len(pairs), 12))
+            for i, j in pairs:
+                lhs, rhs = inner_exact(AE[j], F[i]), inner_exact(E[j], BF[i])
+                if lhs != rhs:
+                    fails.append(('inner-product-adjoint-but-plain-transpose-ok',
+                                  '<A e_{j}, f_{i}>_range = {} but <e_{j}, A* f_{i}>_domain = {} '
+                                  '(unit vectors scaled by {}; the returned adjoint is the plain '
+                                  'transpose and ignores the weighting of the power space)'
+                                  .format(cs(lhs), cs(rhs), cs(u), i=i, j=j)))
+                    break
+    except Exception as e:  # noqa
+        fails.append(('matrix-raised', 'full-basis evaluation raised {!r}'.format(e)[:300]))
+    return fails
+
+
+def explicit_plans(ctx, shapes, all_methods):
+    rng = ctx.rng
+    k = 0
+    for shape in shapes:
+        nd = len(shape)
+        for kind in KINDS:
+            for opt in X_OPTIONS[kind]:
+                for p in PADS:
+                    if kind == 'lap' and p in LAP_REJECTED:
+                        continue
+                    ms = ['forward'] if kind == 'lap' else (
+                        METHODS if all_methods else [METHODS[k % 3]])
+                    k += 1
+                    for m in ms:
+                        axes = range(nd) if kind == 'pd' else [None]
+                        for axis in axes:
+                            a_ax = [axis] if kind == 'pd' else range(nd)
+                            if any(shape[a] < REF_NMIN.get(p, 2) for a in a_ax):
+                                continue
+                            cs_ = [0] + ([2] if p == 'constant' else [])
+                            for c in cs_:
+                                yield dict(kind2='opx', kind=kind, opt=opt, method=m, pad=p,
+                                           shape=shape, axis=axis, c=c,
+                                           cplx=rng.random() < 0.25,
+                                           sample_inner=not all_methods and nd > 1,
+                                           vseed=rng.getrandbits(32))
+
+
+def ops_explicit_stream(ctx, shapes, all_methods):
+    for pl in explicit_plans(ctx, shapes, all_methods):
+        fails = run_explicit_case(pl)
+        side = 'domain' if pl['kind'] == 'div' else 'range'
+        ctx.case(('opx', pl['kind'], pl['opt'], pl['method'], pl['pad'], len(pl['shape']),
+                  pl['c'] != 0))
+        ctx.hit(stratum_of(pl['kind']))
+        ctx.hit('opt/{}-explicit:{}'.format(side, pl['opt']))
+        desc = {k: (str(v) if k == 'shape' else v) for k, v in pl.items()}
+        for label, text in fails[:3]:
+            key = '{} option={}-explicit:{} method={} pad_mode={} shape={} dtype={} pad_const={}{} ' \
+                  'fail={}'.format(CLASSNAME[pl['kind']], side, pl['opt'],
+                                   pl['method'] if pl['kind'] != 'lap' else '-', pl['pad'],
+                                   pl['shape'], 'complex' if pl['cplx'] else 'float', pl['c'],
+                                   '' if pl['axis'] is None else ' axis={}'.format(pl['axis']),
+                                   label)
+            ctx.violation(key, text, desc)
 
 
 # ---------------------------------------------------------------------------
@@ -1128,10 +1346,20 @@ def run(ctx):
     ops_matrix_stream(ctx, [(2,), (3,), (2, 3), (2, 2, 2)] if ctx.quick else
                       [(2,), (3,), (4,), (5,), (2, 2), (2, 3), (3, 2), (3, 4), (2, 2, 2),
                        (2, 3, 2), (3, 2, 3)])
-    want = {'fd/{}/{}/n={}'.format(m, p, nclass(n)) for m in METHODS for p in PADS
-            for n in range(2, 10) if n >= REF_NMIN.get(p, 2)}
-    unhit = sorted(want - set(ctx.branches))
-    ctx.extra['unhit_model_branches'] = unhit
+    ops_explicit_stream(ctx, [(3,), (2, 3)] if ctx.quick else [(2,), (3,), (4,), (2, 3), (3, 2),
+                                                               (2, 2, 3)], not ctx.quick)
+
+
+EXPECTED_BRANCHES = sorted(
+    {'fd/{}/{}/n={}'.format(m, p, nclass(n)) for m in METHODS for p in PADS
+     for n in range(2, 10) if n >= REF_NMIN.get(p, 2)} |
+    {'tables', 'fdvec/real', 'fdvec/complex', 'fdgen'} |
+    {'fdcall/in=' + f for f in IN_FORMS} | {'fdcall/out=' + f for f in OUT_FORMS} |
+    {'op/{}/{}'.format(k, p) for k in KINDS for p in PADS} |
+    {'opspace/' + v for v in SPACE_VARIANTS} | {'opmat/' + k for k in KINDS} |
+    {stratum_of(k) for k in KINDS} |
+    {'opt/{}-explicit:{}'.format('domain' if k == 'div' else 'range', o)
+     for k in KINDS for o in X_OPTIONS[k]})
 
 
 def search(ctx, broken):
@@ -1142,6 +1370,7 @@ def search(ctx, broken):
     fd_matrix_stream(ctx, list(range(1, 14)), EXACT_DXC)
     fd_vector_stream(ctx, list(range(2, 14)), 6)
     fd_variants_stream(ctx, 40)
+    ops_explicit_stream(ctx, [(2,), (3,), (4,), (2, 3), (3, 2), (2, 2, 3)], True)
     ops_stream(ctx, 8)
     ops_matrix_stream(ctx, [(2,), (3,), (4,), (6,), (2, 2), (3, 3), (2, 4), (2, 2, 3)])
 
@@ -1162,6 +1391,11 @@ def replay(ctx, case):
         pl['c'] = _num(case['c'])
         rec = run_op_case(pl)
         return '; '.join(rec['problems'])[:800] if rec and rec['problems'] else None
+    if case.get('kind2') == 'opx':
+        pl = dict(case)
+        pl['shape'] = tuple(_ast.literal_eval(case['shape']))
+        fails = run_explicit_case(pl)
+        return '; '.join('{}: {}'.format(a, b) for a, b in fails)[:800] if fails else None
     if case.get('kind2') == 'opmat':
         sub = core.Ctx(ctx.pid, ctx.tier, ctx.seed)
         ops_matrix_stream(sub, [tuple(_ast.literal_eval(case['shape']))])
